@@ -29,12 +29,16 @@ var s3Seeds = map[string]string{
 }
 
 type s3Space struct {
+	name  string
 	keys  []string // sorted
 	pages []int
 	dims  []dim
 }
 
-func newS3Space(keys []string, pages []int) *s3Space {
+func newS3Space(keys []string, pages []int) *s3Space { return newS3SpaceNamed("s3", keys, pages) }
+
+func newS3SpaceNamed(name string, keys []string, pages []int) *s3Space {
+	sort.Strings(keys)
 	var pn []string
 	for _, p := range pages {
 		pn = append(pn, fmt.Sprint(p))
@@ -43,9 +47,9 @@ func newS3Space(keys []string, pages []int) *s3Space {
 	for _, k := range keys {
 		d = append(d, dim{Name: k, Vals: []string{"absent", "object", "empty-object"}, NoSig: true})
 	}
-	return &s3Space{keys: keys, pages: pages, dims: d}
+	return &s3Space{name: name, keys: keys, pages: pages, dims: d}
 }
-func (s *s3Space) Name() string     { return "s3" }
+func (s *s3Space) Name() string     { return s.name }
 func (s *s3Space) Valid([]int) bool { return true }
 func (s *s3Space) Kind() string     { return "s3" }
 func (s *s3Space) Dims() []dim      { return s.dims }
@@ -111,11 +115,11 @@ func (b *Bucket) list(q url.Values) (body string, listed []string, shape string)
 	}
 	var x strings.Builder
 	x.WriteString(`<?xml version="1.0" encoding="UTF-8"?>` + "\n" + `<ListBucketResult xmlns="http://s3.amazonaws.com/doc/2006-03-01/">`)
-	fmt.Fprintf(&x, "<Name>bucket</Name><Prefix>%s</Prefix>", prefix)
+	fmt.Fprintf(&x, "<Name>bucket</Name><Prefix>%s</Prefix>", xmlEsc.Replace(prefix))
 	if v2 {
 		fmt.Fprintf(&x, "<KeyCount>%d</KeyCount>", len(es))
 	} else {
-		fmt.Fprintf(&x, "<Marker>%s</Marker>", q.Get("marker"))
+		fmt.Fprintf(&x, "<Marker>%s</Marker>", xmlEsc.Replace(q.Get("marker")))
 	}
 	fmt.Fprintf(&x, "<MaxKeys>%d</MaxKeys>", b.PageSize)
 	if delim != "" {
@@ -126,16 +130,16 @@ func (b *Bucket) list(q url.Values) (body string, listed []string, shape string)
 		fmt.Fprintf(&x, "<NextContinuationToken>%s</NextContinuationToken>", base64.StdEncoding.EncodeToString([]byte("at:"+es[len(es)-1].name)))
 	}
 	if trunc && !v2 && delim != "" {
-		fmt.Fprintf(&x, "<NextMarker>%s</NextMarker>", es[len(es)-1].name)
+		fmt.Fprintf(&x, "<NextMarker>%s</NextMarker>", xmlEsc.Replace(es[len(es)-1].name))
 	}
 	for _, e := range es {
 		if !e.cp {
-			fmt.Fprintf(&x, `<Contents><Key>%s</Key><LastModified>2024-01-01T00:00:00.000Z</LastModified><ETag>&quot;d41d8cd98f00b204e9800998ecf8427e&quot;</ETag><Size>%d</Size><StorageClass>STANDARD</StorageClass></Contents>`, e.name, e.size)
+			fmt.Fprintf(&x, `<Contents><Key>%s</Key><LastModified>2024-01-01T00:00:00.000Z</LastModified><ETag>&quot;d41d8cd98f00b204e9800998ecf8427e&quot;</ETag><Size>%d</Size><StorageClass>STANDARD</StorageClass></Contents>`, xmlEsc.Replace(e.name), e.size)
 		}
 	}
 	for _, e := range es {
 		if e.cp {
-			fmt.Fprintf(&x, "<CommonPrefixes><Prefix>%s</Prefix></CommonPrefixes>", e.name)
+			fmt.Fprintf(&x, "<CommonPrefixes><Prefix>%s</Prefix></CommonPrefixes>", xmlEsc.Replace(e.name))
 		}
 	}
 	x.WriteString("</ListBucketResult>\n")
